@@ -154,7 +154,7 @@ def task(spec):
 
             return r
 
-        planned, _e1 = plan_depth(_mk, depth, cap=50_000)
+        planned, _e1 = plan_depth(_mk, depth, cap=25_000)
         if planned < depth:
             counters["specs_with_reduced_depth"] = 1
         depth = planned
